@@ -1,1 +1,5 @@
 import CvProps.C01
+import CvProps.C02
+import CvProps.C03
+import CvProps.C09
+import CvProps.C17
